@@ -31,6 +31,9 @@ void h_buildUpdateMap(void){
   for (int k = 0; k < TSG_NP * TSG_NOUT; k++) { g.surpluses[k] = nondet_double(); scale[k] = nondet_double(); }
   for (int k = 0; k < TSG_NOUT; k++) g.norm[k] = nondet_double();
   double a_tol = nondet_double(); int a_output = nondet_int(), a_crit = nondet_int(); bool a_has_scale = nondet_bool();
+#ifdef TSG_NO_SCALE
+  a_has_scale = false;      /* wavelet grids take no scale correction */
+#endif
   __CPROVER_assume(a_output >= -1 && a_output < g.num_outputs && (a_crit == refine_classic || a_crit == refine_parents_first) && !(a_tol < 0.0) && a_tol == a_tol);
   l_calls = 0;
   buildUpdateMap_classic(&g, a_tol, (TypeRefinement) a_crit, a_output, a_has_scale ? &scale[0] : (const double *) 0, pmap, dflt);
